@@ -445,7 +445,11 @@ type msViewSuffixed struct {
 	suffix string
 }
 
-func (m *msViewSuffixed) GetRegionSuffix() string { return m.suffix }
+func (m *msViewSuffixed) GetRegionSuffix() string {
+	// a configuration getter of the metastore plugin: a scheduling point like every other call into it
+	m.w.S.Point(simrt.KSeam, "ms.region-suffix")
+	return m.suffix
+}
 
 // ---------------------------------------------------------------------------------------------
 // KMS
